@@ -29,7 +29,10 @@ type wuCase struct {
 	T      fl     `json:"threshold"`
 	Period uint32 `json:"warm_up_period_sec"`
 	CF     uint32 `json:"warm_up_cold_factor"`
-	Ops    []wreq `json:"ops"`
+	// Throttling: the rule's ControlBehavior is Throttling (pacing at the warm-up rate) instead of Reject
+	Throttling bool   `json:"control_behavior_throttling,omitempty"`
+	MaxQMs     uint32 `json:"max_queueing_ms,omitempty"`
+	Ops        []wreq `json:"ops"`
 }
 
 type wuObs struct {
@@ -40,6 +43,7 @@ type wuObs struct {
 	Allowed []fl     `json:"-"`
 	Adm     []bool   `json:"-"`
 	Stored  []int64  `json:"-"`
+	Wait    []int64  `json:"-"` // ns the flow slot asked to sleep (throttling rules)
 	Trace   []string `json:"trace,omitempty"`
 	// NaNRejected: the case's threshold is NaN and LoadRules did not put the rule in force (nothing else is observed)
 	NaNRejected bool `json:"nan_threshold_rejected,omitempty"`
@@ -118,6 +122,11 @@ func witness(id int) (wuCase, bool) {
 		c := wuCase{ID: id, Name: "warning-token-zero", T: 3, Period: 1, CF: 5}
 		c.Ops = steady(c.Ops, t+10, 25, 1, 1)
 		return c, true
+	case 12: // the same ordinary warm-up carried by a Throttling rule: pacing at the warm-up rate, must warm up as well
+		c := wuCase{ID: id, Name: "ordinary-throttling", T: 12, Period: 3, CF: 3, Throttling: true}
+		c.Ops = steady(c.Ops, t+10, 20, 14, 1)
+		c.Ops = steady(c.Ops, t+10+200000, 3, 14, 1)
+		return c, true
 	case 5: // ordinary warm-up, threshold 12, period 3, saturating demand then idle then again
 		c := wuCase{ID: id, Name: "ordinary", T: 12, Period: 3, CF: 3}
 		c.Ops = steady(c.Ops, t+10, 20, 14, 1)
@@ -131,7 +140,10 @@ func genWu(r *rng.R, id int) wuCase {
 	if c, ok := witness(id); ok {
 		return c
 	}
-	c := wuCase{ID: id}
+	c := wuCase{ID: id, Throttling: isThrWu(id)}
+	if c.Throttling && id%3 == 0 {
+		c.MaxQMs = uint32(20 * (1 + id%7)) // a short queue: some requests are asked to wait
+	}
 	switch x := r.Intn(20); {
 	case x < 10:
 		c.T = fl(r.PickF(3, 4, 5, 6, 8, 10, 12, 20, 30, 45, 60))
@@ -201,6 +213,9 @@ func runWu(c wuCase, clk *vclock.Clock) wuObs {
 	res := "c11w-" + strconv.Itoa(c.ID)
 	rule := &flow.Rule{Resource: res, TokenCalculateStrategy: flow.WarmUp, ControlBehavior: flow.Reject,
 		Threshold: float64(c.T), WarmUpPeriodSec: c.Period, WarmUpColdFactor: c.CF}
+	if c.Throttling {
+		rule.ControlBehavior, rule.MaxQueueingTimeMs = flow.Throttling, c.MaxQMs
+	}
 	if _, err := flow.LoadRules([]*flow.Rule{rule}); err != nil {
 		panic(err)
 	}
@@ -216,11 +231,17 @@ func runWu(c wuCase, clk *vclock.Clock) wuObs {
 	o := wuObs{Warning: st.WarningToken, Max: st.MaxToken, Slope: fl(st.Slope), CF: st.ColdFactor}
 	for _, q := range c.Ops {
 		clk.SetMs(q.Ms)
+		clk.TakeSleeps()
 		a, _ := flow.AllowedTokensForVerif(res, 0) // what PerformChecking is about to compute (idempotent within a second)
 		e, b := sentinel.Entry(res, sentinel.WithBatchCount(q.B))
 		if b == nil {
 			e.Exit()
 		}
+		var w int64
+		for _, d := range clk.TakeSleeps() { // the clock does not advance on Sleep (AdvanceOnSleep = false)
+			w += int64(d)
+		}
+		o.Wait = append(o.Wait, w)
 		st, _ := flow.WarmUpStateForVerif(res, 0)
 		o.Allowed = append(o.Allowed, fl(a))
 		o.Adm = append(o.Adm, b == nil)
@@ -234,8 +255,8 @@ func runWu(c wuCase, clk *vclock.Clock) wuObs {
 const (
 	sigD9      = "warmup-empty-token-range-nan-threshold-admits-all" // repaired in /repo; not listed any more
 	sigNoCold  = "warmup-empty-token-range-no-cold-phase"
-	sigNaNThr  = "nan-threshold-accepted-by-isvalidrule"      // repaired in /repo 1e1f6ae; not listed: a regression is a violation
-	sigInfThr  = "infinite-threshold-not-finite-allowed"        // not listed: +Inf gives MaxFloat64 today
+	sigNaNThr  = "nan-threshold-accepted-by-isvalidrule" // repaired in /repo 1e1f6ae; not listed: a regression is a violation
+	sigInfThr  = "infinite-threshold-not-finite-allowed" // not listed: +Inf gives MaxFloat64 today
 	sigD10     = "warmup-threshold-below-coldfactor-starved"
 	sigD10eq   = "warmup-threshold-equals-coldfactor-rounding-starved"
 	sigStuck   = "warmup-stuck-at-warning-line-never-cools"
@@ -292,7 +313,7 @@ func monitorWu(c wuCase, o wuObs, rep *emit.Report) (nontrivial bool) {
 		}
 	}
 	tol := math.Nextafter(T*(1+math.Pow(2, -50)), math.Inf(1)) // threshold 0: the Nextafter bump gives the least subnormal
-	var passT []uint64 // admitted (time, batch) ledger
+	var passT []uint64                                         // admitted (time, batch) ledger
 	var passB []uint32
 	windowSum := func(now uint64) int64 { // admitted tokens in the sliding window of the reject checker
 		cs := now - now%500
@@ -304,6 +325,8 @@ func monitorWu(c wuCase, o wuObs, rep *emit.Report) (nontrivial bool) {
 		}
 		return s
 	}
+	var lastPassNs int64 // Throttling rules: the latest pass time of the monitor's own ledger
+	havePass := false
 	idleNeed := uint64(0)
 	if T > 0 && !degenerate {
 		idleNeed = uint64(math.Ceil(float64(M)/T))*1000 + 3000
@@ -312,6 +335,8 @@ func monitorWu(c wuCase, o wuObs, rep *emit.Report) (nontrivial bool) {
 	var starveStart, lastSec uint64
 	starveLen := 0 // consecutive seconds with a single-token request and nothing admitted
 	satLen := 0    // consecutive saturated seconds (offered >= T+1 and something rejected)
+	satRunStart, curIdx := 0, 0 // first request of the current run of saturated seconds; request being looked at
+	lastFull := -1              // latest request whose allowed value was the full threshold
 	var secOffered int64
 	secRejected, secSingle := false, false
 	admittedInRun := false
@@ -325,6 +350,7 @@ func monitorWu(c wuCase, o wuObs, rep *emit.Report) (nontrivial bool) {
 			satLen++
 		} else {
 			satLen = 0
+			satRunStart = curIdx
 		}
 	}
 	distinctAllowed := map[uint64]bool{}
@@ -335,14 +361,17 @@ func monitorWu(c wuCase, o wuObs, rep *emit.Report) (nontrivial bool) {
 		if i == 0 {
 			lastSec, starveStart = sec, sec
 		} else if sec != lastSec {
+			curIdx = i
 			closeSecond()
 			if sec != lastSec+1 { // a gap: runs are broken
 				starveLen, satLen = 0, 0
+				satRunStart = i
 			}
 			if q.Ms-c.Ops[i-1].Ms > 500 {
 				// no request for longer than a statistic bucket: the demand is not sustained (the
 				// calculator reads the pass count of the previous 1000 ms at bucket granularity)
 				satLen = 0
+				satRunStart = i
 			}
 			if starveLen == 0 {
 				starveStart = sec
@@ -365,7 +394,21 @@ func monitorWu(c wuCase, o wuObs, rep *emit.Report) (nontrivial bool) {
 				fail(i, "C11_wu_le_threshold", "allowed-above-threshold", "allowed=%v threshold=%v", a, T)
 			}
 		}
-		if o.Adm[i] && float64(windowSum(q.Ms)+int64(q.B)) > tol {
+		if c.Throttling {
+			// a Throttling rule paces at the allowed rate: consecutive pass times (arrival + requested wait)
+			// are at least batch/allowed seconds apart and no wait exceeds the queueing limit
+			if o.Adm[i] && !math.IsNaN(a) && a > 0 {
+				pass := int64(q.Ms)*1000000 + o.Wait[i]
+				need := float64(q.B) / a * 1e9
+				if o.Wait[i] < 0 || o.Wait[i] > int64(c.MaxQMs)*1000000 {
+					fail(i, "C11_wu_le_threshold", "throttled-wait-exceeds-queue-limit", "asked to wait %d ns, limit %d ms", o.Wait[i], c.MaxQMs)
+				}
+				if havePass && float64(pass-lastPassNs) < need*(1-1e-9)-1 {
+					fail(i, "C11_wu_le_threshold", "throttled-admissions-closer-than-allowed-rate", "pass time %d ns after the previous one, batch %d at allowed %v needs %v ns", pass-lastPassNs, q.B, a, need)
+				}
+				lastPassNs, havePass = pass, true
+			}
+		} else if o.Adm[i] && float64(windowSum(q.Ms)+int64(q.B)) > tol {
 			sig := "admitted-over-threshold"
 			if degenerate && math.IsNaN(a) {
 				sig = sigD9
@@ -392,8 +435,19 @@ func monitorWu(c wuCase, o wuObs, rep *emit.Report) (nontrivial bool) {
 		}
 		// 4. full threshold after sustained saturating demand
 		// (the value on the warning line itself is Nextafter(1/(1/T)), one or two ulps from T)
-		if !degenerate && T >= float64(2*cf) && satLen >= 4*int(c.Period)+5 && a < T*(1-math.Pow(2, -50)) {
-			fail(i, "C11_wu_reaches_full", "not-warmed-up-after-sustained-demand", "%d saturated seconds, allowed=%v threshold=%v stored=%d", satLen, a, T, o.Stored[i])
+		if a >= T*(1-math.Pow(2, -50)) {
+			lastFull = i
+		}
+		if !degenerate && T >= float64(2*cf) && satLen >= 4*int(c.Period)+5 {
+			if !c.Throttling && a < T*(1-math.Pow(2, -50)) {
+				fail(i, "C11_wu_reaches_full", "not-warmed-up-after-sustained-demand", "%d saturated seconds, allowed=%v threshold=%v stored=%d", satLen, a, T, o.Stored[i])
+			}
+			// a Throttling rule admits at the grid of its pacing interval, i.e. somewhat below the allowed rate, so
+			// the bucket hovers around the warning line: the full threshold must have been reached in the run
+			// (the existential form of C11_wu_reaches_full), it need not hold at every later instant
+			if c.Throttling && lastFull < satRunStart {
+				fail(i, "C11_wu_reaches_full", "throttling-rule-never-warmed-up-under-sustained-demand", "%d saturated seconds since request %d, the allowed value never reached the threshold %v (now %v, stored=%d warningToken=%d)", satLen, satRunStart, T, a, o.Stored[i], W)
+			}
 		}
 		// 5. a steady single-token demand is not starved
 		if starveLen >= starveSecs && T >= 1 && !o.Adm[i] && q.B == 1 {
@@ -437,6 +491,14 @@ func coqWu(c wuCase, o wuObs) string {
 		ops = append(ops, emit.Tuple(emit.U(q.Ms), emit.U(uint64(q.B))))
 		obs = append(obs, emit.Tuple(emit.F(float64(o.Allowed[i])), emit.B(o.Adm[i]), emit.Z(o.Stored[i])))
 	}
+	if c.Throttling {
+		var ws []string
+		for i := range c.Ops {
+			ws = append(ws, emit.Z(o.Wait[i]))
+		}
+		return fmt.Sprintf("WUT %d %s %d %d %d %s %s %s %s %s %s", c.ID, emit.F(float64(c.T)), c.Period, c.CF, c.MaxQMs, emit.List(ops), emit.List(obs),
+			emit.List(ws), emit.U(o.Warning), emit.U(o.Max), emit.F(float64(o.Slope)))
+	}
 	return fmt.Sprintf("WU %d %s %d %d %s %s %s %s %s", c.ID, emit.F(float64(c.T)), c.Period, c.CF, emit.List(ops), emit.List(obs),
 		emit.U(o.Warning), emit.U(o.Max), emit.F(float64(o.Slope)))
 }
@@ -455,6 +517,16 @@ func runWuCase(a cli.Args, root *rng.R, rep *emit.Report, dist *emit.Distinct, s
 		dist.Add(string(b))
 	}
 	rep.Count("wu_cases", 1)
+	if c.Throttling {
+		rep.Count("wu_cases_control_behavior_throttling", 1)
+		for _, w := range o.Wait {
+			if w > 0 {
+				rep.Count("wu_throttling_requests_asked_to_wait", 1)
+			}
+		}
+	} else {
+		rep.Count("wu_cases_control_behavior_reject", 1)
+	}
 	rep.Count("wu_requests", len(c.Ops))
 	if o.Max == o.Warning {
 		rep.Count("wu_degenerate_token_range", 1)
@@ -505,7 +577,7 @@ func trace(c wuCase, o wuObs, n int) []string {
 		if i >= n {
 			break
 		}
-		t = append(t, fmt.Sprintf("t=+%dms b=%d allowed=%v admitted=%v stored=%d", q.Ms-caseBase(c.ID), q.B, float64(o.Allowed[i]), o.Adm[i], o.Stored[i]))
+		t = append(t, fmt.Sprintf("t=+%dms b=%d allowed=%v admitted=%v stored=%d wait=%dns", q.Ms-caseBase(c.ID), q.B, float64(o.Allowed[i]), o.Adm[i], o.Stored[i], o.Wait[i]))
 	}
 	return t
 }
